@@ -160,7 +160,8 @@ CLAIMED = {
         "lossy UTF-8 laws, over all trees of the universe (presence x -J orders x importers x spellings x kinds, "
         "aliases, cycles, binary content), and emits each terminal behaviour; every scenario is materialised and run "
         "through the real binary: exit status, manifested value (which file, thisFile, text, bytes), TRACE lines per "
-        "file (= evaluations), error site.",
+        "file (= evaluations), error site."
+        " Code files given with --ext-code-file / --tla-code-file are bound before the run, enter the same cache (thisFile = command-line spelling, evaluated lazily at most once) and resolve their own imports against their directory: scenario family codefile.",
         "DESIGN.md §5 C13",
         "Sources from -e/stdin, symlink loops and permission faults (runs as root) are outside the domain; message texts "
         "are not compared.",
